@@ -7,6 +7,8 @@ Decided (E2 alias / ownership / mutation analysis; may-analysis over all paths, 
   AL-ret   a public class operation that returns a new ndarray / list / pyttb / sparse object returns
            nothing that shares array storage with an operand (handing back the operand object itself,
            or sharing under the function's own copy=False flag, is not aliasing)
+  AL-cap   an operation that writes into an operand (the in-place family: __setitem__, update, ...) stores
+           no reference to ANOTHER operand's array storage there (values are copied in)
   AL-ctor  with copying enabled (the default) every attribute a constructor stores is fresh
 A finding is reported at the function in which the write / the view chain occurs: findings that exist
 only because an already-reported public callee misbehaves are attributed to that callee (the caller is
@@ -81,6 +83,16 @@ def mut_findings(fi: FuncInfo, s: al.Summary, inplace: bool):
     return bad, und - bad
 
 
+def cap_findings(fi: FuncInfo, s: al.Summary):
+    bad = set()
+    for (path, gs) in s.cap:
+        src, _, hold = path.partition("=>")
+        if _optin(fi, gs) or not _protected(fi, src) or not _protected(fi, hold):
+            continue
+        bad.add((path, gs))
+    return bad
+
+
 def ret_findings(fi: FuncInfo, s: al.Summary):
     r = s.ret
     if r is None or r.kind == "imm":
@@ -116,7 +128,7 @@ def check(prog: Program, res: Result, tier: str) -> None:
     n_doc = sum(1 for v in inplace.values() if v.startswith("docstring"))
     if n_doc < 5:
         raise AnalysisError(f"only {n_doc} operations documented as in-place were found (5 confirmed by hand)")
-    res.floors = {"AL-mut": 250, "AL-ret": 150, "AL-ctor": 7}
+    res.floors = {"AL-mut": 250, "AL-ret": 150, "AL-ctor": 7, "AL-cap": 250}
 
     def accountable_ret(fi: FuncInfo) -> bool:
         return fi.cls in TENSOR_CLASSES and fi.name != "__init__" and not fi.qualname.endswith(".setter")
@@ -134,6 +146,8 @@ def check(prog: Program, res: Result, tier: str) -> None:
             b, _ = ret_findings(fi, s)
             if b:
                 violators.add(q)
+        if cap_findings(fi, s):
+            violators.add(q)
 
     # phase 2: attribute each finding to the function where it originates
     attributed = eng.solve_attributed(violators) if violators else eng.sums
@@ -158,6 +172,18 @@ def check(prog: Program, res: Result, tier: str) -> None:
                           f"possible write to {_fmt(und)} through an unmodelled call: {sorted(s.unknown_calls)[:4]}")
         else:
             res.ok("AL-mut", fi.short, desc_ok, where, nontrivial=bool(s.mut or fi.params()))
+        # ---- AL-cap
+        if fi.name != "__init__":
+            bad = cap_findings(fi, s_local)
+            full = cap_findings(fi, s)
+            desc_ok = "keeps no reference to another operand's storage in an operand"
+            if bad:
+                why = "; ".join(sorted({s_local.cap_why.get(p, "") for p, _ in bad} - {""}))[:300]
+                res.bad("AL-cap", fi.short, f"stores operand storage into another operand: {_fmt(bad)}", where, why)
+            elif full:
+                res.ok("AL-cap", fi.short, desc_ok, where, "(capture happens inside an already reported public callee)")
+            else:
+                res.ok("AL-cap", fi.short, desc_ok, where, nontrivial=bool(s.mut))
         # ---- AL-ret
         if accountable_ret(fi) and s.ret is not None and s.ret.kind != "imm":
             bad, und = ret_findings(fi, s_local)
